@@ -2,7 +2,10 @@ use super::{BlockType, SentinelRule};
 use crate::utils;
 use std::any::Any;
 use std::fmt;
+#[cfg(not(sentinel_verif))]
 use std::sync::Arc;
+#[cfg(sentinel_verif)]
+use sentinel_verif_rt::sync::Arc;
 
 // todo: use String instead of Any to record snapshots?
 pub trait SnapshotTrait: Any + fmt::Debug + utils::AsAny + Send + Sync {}
